@@ -2,11 +2,16 @@
 import common
 import gen_ops
 from props import c01 as base
-from props.c01 import impl, compare, distribution, matches_known, rerun_known, replay, nontrivial   # noqa: F401
+from props.c01 import compare, distribution, matches_known, nontrivial   # noqa: F401
+import numpy as np
+import tprog, gen_dag
+from common import fbits, show_floats, show_ints
 
 PROP = 'C02'
 LEAN_TARGETS = ['Props.C02']
-REQUIRED_THEOREMS = ['Props.C02.linear_vjp', 'Props.C02.mse_vjp', 'Props.C02.nll_vjp', 'Props.C02.dropout_vjp']
+REQUIRED_THEOREMS = ['Props.C02.linear_vjp', 'Props.C02.mse_vjp', 'Props.C02.nll_vjp', 'Props.C02.dropout_vjp', 'Props.C02.conv1d_vjp', 'Props.C02.conv2d_vjp',
+                     'Props.C02.avgpool_vjp', 'Props.C02.relu_vjp', 'Props.C02.sigmoid_vjp', 'Props.C02.maxpool_vjp_subgradient', 'Props.C02.unfold_fold_vjp']
+UNPROVED = ['softmax', 'log_softmax', 'cross_entropy', 'binary_cross_entropy', 'binary_cross_entropy_with_logits', 'batch_norm (all modes)', 'max_pool2d (1d proved)']
 RULE = ('per nn op: relu / leaky_relu (any slope) / selu / tanh / sigmoid, softmax and log_softmax along every dim of ranks 1-4, '
         'mse (both arguments) / nll / bce / bce-with-logits / cross-entropy, linear with and without bias, conv1d / conv2d and '
         'max / avg pooling 1d / 2d over a geometry grid (non-square kernels, stride > kernel, dilation, padding, windows that do not '
@@ -18,17 +23,110 @@ ASSUMPTIONS = base.ASSUMPTIONS + ['relu-family inputs are kept away from the kin
 TRUSTED_BASE = base.TRUSTED_BASE
 
 
+class BNExec(tprog.Impl):
+    """batch_norm through PERSISTENT running-statistics tensors (as a layer holds them), so that a later training
+    forward can disturb what an earlier eval forward saved for its backward"""
+    def __init__(self):
+        super().__init__()
+        self.rm = self.rv = None
+
+    def call_nn(self, name, x, args):
+        if name != 'batch_norm':
+            return super().call_nn(name, x, args)
+        sg = self.sg
+        hw, hb, tr = bool(int(args[0])), bool(int(args[1])), bool(int(args[2]))
+        if self.rm is None:
+            self.rm = sg.Tensor(np.array(common.parse_floats(args[4]), dtype=np.float64))
+            self.rv = sg.Tensor(np.array(common.parse_floats(args[5]), dtype=np.float64))
+        w = x[1] if hw else None
+        b = (x[2] if hw else x[1]) if hb else None
+        return sg.batch_norm(x[0], w, b, self.rm, self.rv, tr, self.momentum, common.bitsf(args[3]))
+
+
+def bnseq_case(rng):
+    """eval forward, then training forwards through the same running statistics, then backward of the FIRST output"""
+    c = rng.randint(1, 3)
+    n = rng.randint(2, 4)
+    rest = rng.pick([(), (2,)])
+    sh = (n, c) + rest
+    eps, mom = rng.pick([1e-5, 1e-3]), rng.pick([0.1, 0.5])
+    rm = [rng.dyadic(-1, 1) for _ in range(c)]
+    rv = [rng.randint(2, 24) / 8 for _ in range(c)]
+    hw = rng.chance(.6)
+    leaves = [gen_dag.leaf_line(sh, gen_ops.vals(rng, sh), True)] + ([gen_dag.leaf_line((c,), gen_ops.vals(rng, (c,), 'pos'), True)] if hw else [])
+    nl = len(leaves)
+    ins = '0,1' if hw else '0'
+    lines = list(leaves)
+    lines.append(f"t op batch_norm {ins} {int(hw)} 0 0 {fbits(eps)} {show_floats(rm)} {show_floats(rv)}")      # eval, saves the statistics
+    y1 = nl
+    cur_rm, cur_rv = list(rm), list(rv)
+    ntrain = rng.randint(1, 2)
+    for k in range(ntrain):
+        xs = gen_ops.vals(rng, sh)
+        lines.append(gen_dag.leaf_line(sh, xs, False))
+        xi = nl + 1 + 2 * k
+        # the model is told the running statistics in force at this call (computed here by the documented rule)
+        lines.append(f"t op batch_norm {xi} 0 0 1 {fbits(eps)} {show_floats(cur_rm)} {show_floats(cur_rv)}")
+        X = np.array(xs).reshape(sh)
+        axes = tuple(i for i in range(X.ndim) if i != 1)
+        m, v, cnt = X.mean(axes), X.var(axes), X.size / c
+        cur_rm = list(m * mom + np.array(cur_rm) * (1 - mom)); cur_rv = list(v * cnt / (cnt - 1) * mom + np.array(cur_rv) * (1 - mom))
+    g = gen_dag.rand_data(rng, sh, -2, 2)
+    lines.append(f"t bw {y1} {show_ints(sh)} {show_floats(g)}")
+    lines += [f't grad {k}' for k in range(nl)]
+    return {'op': 'batch_norm_sequence', 'kind': 'bnseq', 'leaves': [], 'args': [], 'malformed': False, 'nout': 1, 'mom': mom, 'lines': lines,
+            'desc': ' ; '.join(lines)[:600]}
+
+
 def cases(rng, tier):
     out = []
     per = 14 if tier == 'quick' else 400
     for op in gen_ops.OPS_NN:
-        for _ in range(per):
+        for _ in range(per * (2 if op in ('fold', 'conv2d', 'max_pool2d') else 1)):
             out.append(base.finish(base.build(rng, op, rng.chance(0.08), gen_ops.gen_nn), rng))
+    for _ in range(20 if tier == 'quick' else 600):
+        out.append(bnseq_case(rng))
     return out
 
 
+def impl(c):
+    if c.get('kind') == 'bnseq':
+        im = BNExec(); im.momentum = c['mom']
+        try:
+            return [im.exec(l) for l in c['lines']]
+        finally:
+            im.close()
+    return base.impl(c)
+
+
 def oracle(c):
+    if c.get('kind') == 'bnseq':
+        # the gradient of the first (eval-mode) output w.r.t. its input must be g * gamma / sqrt(rv0 + eps): recompute
+        io = impl(c)
+        l0 = c['lines'][0].split(' ')
+        sh = tuple(common.parse_ints(l0[3]))
+        hw = c['lines'][1].startswith('t leaf')
+        op = [l for l in c['lines'] if l.startswith('t op batch_norm')][0].split(' ')
+        eps, rv0 = common.bitsf(op[7]), np.array(common.parse_floats(op[9]))
+        gam = np.array(common.parse_floats(c['lines'][1].split(' ')[5])) if hw else np.ones(sh[1])
+        bw = [l for l in c['lines'] if l.startswith('t bw')][0].split(' ')
+        g = np.array(common.parse_floats(bw[4])).reshape(sh)
+        bs = tuple(sh[1] if i == 1 else 1 for i in range(len(sh)))
+        want = g * (gam / np.sqrt(rv0 + eps)).reshape(bs)
+        got = io[len(c['lines']) - (2 if hw else 1)]
+        if got in ('-', 'rejected') or not np.allclose(tprog.parse_arr(got), want, rtol=1e-9, atol=1e-12):
+            return {'key': {'op': 'batch_norm', 'cls': 'eval-backward-after-training-forward'}, 'case': {'kind': 'bnseq', 'lines': c['lines'], 'mom': c['mom'], 'op': c['op']},
+                    'what': f'the input gradient of an eval-mode batch_norm output, taken after a later training forward through the same running statistics, is {got[:120]}; with the statistics the forward used it is {want.ravel()[:6].tolist()}'}
+        return None
     return base.oracle(c)
+
+
+def rerun_known(k): return oracle(_fix(k['witness'])) is not None
+def _fix(c):
+    return c if c.get('kind') == 'bnseq' else base._fix(c)
+def replay(fail):
+    f = oracle(_fix(fail['case']))
+    return {'fails': f is not None, 'now': f}
 
 
 def search(rng, tier):
